@@ -282,7 +282,7 @@ PROPS = {
         'families': [
             {'name': 'accept', 'args': {'quick': ['--templates', 1, '--programs', 20000], 'thorough': ['--templates', 1, '--programs', 1000000]},
              'shards': {'quick': 16, 'thorough': 16}, 'driver_args': ['--nodedupe']},
-            {'name': 'tree', 'args': {'quick': ['--programs', 6000], 'thorough': ['--programs', 200000]},
+            {'name': 'tree', 'args': {'quick': ['--programs', 6000], 'thorough': ['--programs', 30000]},
              'shards': {'quick': 16, 'thorough': 16}, 'driver_args': []},
         ],
         'exhaustive': {'quick': True, 'thorough': True},
